@@ -270,6 +270,9 @@ func (r *Runner) observe(outcome int, msg string, forceFull bool) Obs {
 	return o
 }
 
+// Observe takes a light observation of the current state.
+func (r *Runner) Observe() Obs { return r.observe(0, "", false) }
+
 // Start builds the emulator (New + first resize).
 func (r *Runner) Start(w, h int) {
 	t, o, m := term.VerifNewTerm(w, h)
